@@ -144,8 +144,11 @@ def plasmid_text(kit, p):
     b = plasmid.build_module(g, {"o5": sig[0], "o3": sig[1], "t": p["t"], "b": p["b"] or "AC",
                                  "x": "A", "y": "T", "rot": p.get("rot", 0)})
     n = len(b.seq)
+    # the resistance feature may carry several labels, the marker name not first
+    labels = {0: [p["marker"]], 1: ["bla", p["marker"]], 2: [p["marker"], "resistance"],
+              3: ["marker", "orf", p["marker"]]}[p.get("labels", 0) % 4]
     feats = [SeqFeature(FeatureLocation(0, min(n, 5), 1), type="CDS",
-                        qualifiers={"label": [p["marker"]]})]
+                        qualifiers={"label": labels})]
     if p.get("extra"):
         feats.append(SeqFeature(FeatureLocation(0, 1, 1), type="misc_feature", qualifiers={"label": ["other"]}))
     r = SeqRecord(Seq(b.seq), id="inner_id", name="plasmid", description=p.get("desc", "a generated part"),
@@ -322,7 +325,7 @@ _EXT_BAD = ["genbank", "GB", "txt", "fa", "", "gb~", "gbk2"]
 def _plasmid(draw):
     return {"sig": draw(st.integers(0, 3)), "t": draw(gen.dna_text(2, 20)), "b": draw(gen.dna_text(2, 20)),
             "rot": draw(st.integers(0, 60)), "marker": draw(st.sampled_from(sorted(LABELS))),
-            "extra": draw(st.booleans())}
+            "extra": draw(st.booleans()), "labels": draw(st.integers(0, 3))}
 
 
 @st.composite
